@@ -395,6 +395,11 @@ func (chs *ClientHelloSpec) ImportTLSClientHello(data map[string][]byte) error {
 					return errors.New("key_share is required")
 				}
 
+				// each key share is described by 4 bytes: group (uint16) and key length (uint16)
+				if len(data["key_share"])%4 != 0 {
+					return errors.New("key_share length is not a multiple of 4")
+				}
+
 				// need to add (zero) data per each key share, [10, 10, 0, 1] => [10, 10, 0, 1, 0]
 				fixedData := make([]byte, 0)
 				for i := 0; i < len(data["key_share"]); i += 4 {
